@@ -184,6 +184,26 @@ func mkInsert(m *mModel, table string, n int, big bool) stmt {
 		}}
 }
 
+// mkInsertNull inserts two rows naming only the sequence column, so every
+// other column of those rows is NULL (the grammar has no NULL literal).
+func mkInsertNull(m *mModel, table string) stmt {
+	t := m.Tables[table]
+	k1, k2 := t.Inserted+1, t.Inserted+2
+	return stmt{SQL: fmt.Sprintf("INSERT INTO %s (%s) VALUES (%d), (%d)", table, t.Cols[0].Name, k1, k2), Kind: "insert", Table: table, N: 2,
+		apply: func(m *mModel, prefix int) {
+			t := m.Tables[table]
+			for i, k := range []int{k1, k2} {
+				if prefix >= 0 && i >= prefix {
+					break
+				}
+				row := make([]any, len(t.Cols))
+				row[0] = int64(k)
+				t.Rows = append(t.Rows, &mRow{Vals: row})
+			}
+			t.Inserted += 2
+		}}
+}
+
 // predicate over the sequence column
 type seqPred struct {
 	op string // "<=", ">", "=", "" (all), "none"
@@ -831,6 +851,8 @@ type alphaOpt struct {
 	Updates   bool
 	Deletes   bool
 	NonePreds bool // include statements matching no row
+	FewDeletes bool // only DELETE upper half / DELETE all (not "= last row")
+	NullInsert bool // INSERT naming only the first column (the others are NULL)
 }
 
 func (w *world) alphabet(o alphaOpt) []stmt {
@@ -848,6 +870,9 @@ func (w *world) alphabet(o alphaOpt) []stmt {
 		if o.BigInsert {
 			out = append(out, mkInsert(m, tn, 1, true))
 		}
+		if o.NullInsert {
+			out = append(out, mkInsertNull(m, tn))
+		}
 		half := t.Inserted / 2
 		if o.Updates && len(t.Rows) > 0 {
 			gen := m.Gen
@@ -857,7 +882,9 @@ func (w *world) alphabet(o alphaOpt) []stmt {
 		}
 		if o.Deletes && len(t.Rows) > 0 {
 			out = append(out, mkDelete(m, tn, seqPred{">", half}))
-			out = append(out, mkDelete(m, tn, seqPred{"=", t.Inserted}))
+			if !o.FewDeletes {
+				out = append(out, mkDelete(m, tn, seqPred{"=", t.Inserted}))
+			}
 			out = append(out, mkDelete(m, tn, seqPred{"", 0}))
 		}
 		if o.NonePreds && len(t.Rows) > 0 {
